@@ -353,6 +353,12 @@ func main() {
 		m, err := translate(*repo, a, files)
 		if err != nil {
 			errs = append(errs, err.Error())
+			// keep the last definition that was generated for this anchor, marked stale, so
+			// that the model still compiles and the search for a failing input can run
+			if old := oldDefinition(filepath.Join(*out, a.Out+".v"), a.Name); old != "" {
+				byOut[a.Out] = append(byOut[a.Out], matched{a.Name, a.File, a.Recv + "." + a.Func, 0,
+					"STALE: anchor no longer found in the source; last generated definition kept", old})
+			}
 			continue
 		}
 		byOut[a.Out] = append(byOut[a.Out], m)
@@ -401,6 +407,25 @@ func main() {
 		}
 		os.Exit(3)
 	}
+}
+
+// oldDefinition returns the text "Definition name ... ." of a previously generated file.
+func oldDefinition(path, name string) string {
+	b, err := os.ReadFile(path)
+	if err != nil {
+		return ""
+	}
+	txt := stripComments(string(b))
+	i := strings.Index(txt, "Definition "+name+" ")
+	if i < 0 {
+		return ""
+	}
+	rest := txt[i:]
+	j := strings.Index(rest, ".\n")
+	if j < 0 {
+		return ""
+	}
+	return strings.TrimSpace(rest[:j+1])
 }
 
 func stripComments(s string) string {
